@@ -274,6 +274,8 @@ func silenceStderr() {
 	}
 	logFile = f
 	syscall.Dup3(int(f.Fd()), 2, 0)
+	// a validated config may log to stdout (`output stdout`); the harness itself never prints there
+	syscall.Dup3(int(f.Fd()), 1, 0)
 }
 
 var (
